@@ -15,6 +15,7 @@ mod c08;
 mod c09;
 mod c10;
 mod c11;
+mod c12;
 mod c14;
 mod c15;
 mod c17;
@@ -75,6 +76,7 @@ fn run_lines() {
             "crash" => c06::crash(&mut t),
             "sub" => c11::sub(&mut t),
             "upd" => c14::upd(&mut t),
+            "attach" => c12::attach(&mut t),
             "schema" => c15::schema(&mut t),
             "authz" => c17::authz(&mut t),
             "ro" => c17::ro(&mut t),
